@@ -178,14 +178,20 @@ Definition remove_tensor (sh : list nat) (B : nat) (o : Z) : uerr + ores :=
   | None => inl UIndex
   end.
 
-(* shape-level version of [td_remove_c]: same steps, same order *)
-Definition remove_td (bsz : list nat) (feats : list (list nat)) (B : nat) (o : Z) : uerr + ores :=
+(* shape-level version of [td_remove_raw] / [td_remove_c]: same steps, same order *)
+Definition remove_td_raw (bsz : list nat) (feats : list (list nat)) (B : nat) (o : Z) : uerr + ores :=
   match all_some (map (fun f => match torch_wrap o (length bsz + length f + 1) with
                                 | Some p => Some (insert_at (bsz ++ f) p B) | None => None end) feats) with
   | None => inl UIndex
   | Some shapes =>
       let nbs := py_insert bsz o B in
       if forallb (fun sh => list_eqb (firstn (length nbs) sh) nbs) shapes then inr (RTd nbs) else inl URuntime
+  end.
+
+Definition remove_td (bsz : list nat) (feats : list (list nat)) (B : nat) (o : Z) : uerr + ores :=
+  match torch_wrap o (length bsz + 1) with
+  | None => inl UIndex
+  | Some p => remove_td_raw bsz feats B (Z.of_nat p)
   end.
 
 Definition unwrap1 (B : nat) (x : oleaf) (d : dleaf) : uerr + ores :=
